@@ -614,17 +614,29 @@ pub fn c13(a: &Arena, pre: &RefState, op: &Op, post: &RefState, ret: &Ret) -> Vi
                 fail("unexpected-dummy", format!("returned new dummy {} although no service trip was displaced", d));
             }
         } else {
-            if new_dummies.len() != 1 {
-                fail("displaced-not-handed-back", format!("displaced service trips [{}] must be in exactly one new dummy tour, new dummies: {:?}", names(svc), new_dummies));
+            // one new dummy tour in general; if a displaced maintenance slot was the only connection between two of the
+            // trips, one dummy tour per maximal chain of consecutively connectable trips (a dummy tour is a path)
+            let mut chains: Vec<Vec<NodeIdx>> = vec![];
+            for &n in svc {
+                match chains.last_mut() {
+                    Some(c) if a.reach(*c.last().unwrap(), n) => c.push(n),
+                    _ => chains.push(vec![n]),
+                }
+            }
+            let mut nd = new_dummies.clone();
+            nd.sort();
+            if nd.len() != chains.len() {
+                fail("displaced-not-handed-back", format!("displaced service trips [{}] form {} connectable chain(s) and must be in as many new dummy tours, new dummies: {:?}", names(svc), chains.len(), new_dummies));
             } else {
-                let d = new_dummies[0];
-                expected_new.insert(d);
-                if services(a, &post.dummies[&d]) != svc || post.dummies[&d].len() != svc.len() {
-                    fail("displaced-not-handed-back", format!("new dummy {} holds [{}], displaced service trips are [{}]", d, names(&post.dummies[&d]), names(svc)));
+                for (d, chain) in nd.iter().zip(chains.iter()) {
+                    expected_new.insert(*d);
+                    if services(a, &post.dummies[d]) != *chain || post.dummies[d].len() != chain.len() {
+                        fail("displaced-not-handed-back", format!("new dummy {} holds [{}], displaced service trips are [{}]", d, names(&post.dummies[d]), names(chain)));
+                    }
                 }
                 if let Some(ret_d) = returned {
-                    if ret_d != Some(d) {
-                        fail("displaced-not-handed-back", format!("returned {:?} but the new dummy is {}", ret_d, d));
+                    if ret_d != Some(nd[0]) {
+                        fail("displaced-not-handed-back", format!("returned {:?} but the (first) new dummy is {}", ret_d, nd[0]));
                     }
                 }
             }
